@@ -50,7 +50,7 @@ func init() {
 		dom, _ := m["dom"].(bool)
 		return c02DiagCase(unhx(text), m["truth"], dom)
 	}
-	replayers["c20.hover"] = func(c *Ctx, m map[string]any) map[string]any {
+	replayers["c20.hovertext"] = func(c *Ctx, m map[string]any) map[string]any {
 		text, _ := m["text"].(string)
 		return c20HoverCase(unhx(text), m["truth"])
 	}
@@ -1239,7 +1239,7 @@ func genC20(c *Ctx) {
 	riskRate = 0
 	for i := 0; i < c.N(400, 20000); i++ {
 		text, truth, _ := c02genJournal(c, 6)
-		c.Emit("c20.hover", c20HoverCase(text, normJ(truth)))
+		c.Emit("c20.hovertext", c20HoverCase(text, normJ(truth)))
 	}
 	for i := 0; i < c.N(800, 40000); i++ {
 		text, truth, _ := c02genJournal(c, 6)
